@@ -382,6 +382,48 @@ func c14History(c *ev.Ctx) {
 				name = pool[r.Intn(len(pool))]
 			}
 		}
+		if quiet && (cs.Mode == "lazy" || cs.Mode == "incremental") && len(model) >= 3 && r.Chance(1, 10) {
+			// look a name up, delete another one (lazily), then update the first - with nothing
+			// in between: whatever the look-up left behind must not outlive the delete
+			var names []string
+			for n := range model {
+				if _, coll := collOf[n]; !coll {
+					names = append(names, n)
+				}
+			}
+			sort.Strings(names)
+			if len(names) >= 3 {
+				x, y := names[r.Intn(len(names))], names[r.Intn(len(names))]
+				hist = append(hist, c14Op{"search", x, 0})
+				if !searchCheck(x) {
+					return
+				}
+				hist = append(hist, c14Op{"delete", y, 0})
+				if err := del(y); err != nil {
+					fail("delete:refused:"+tag(), err.Error())
+					return
+				}
+				delete(model, y)
+				nextID += 11
+				hist = append(hist, c14Op{"update", x, nextID})
+				err := bt.UpdateRecord(x, nextID)
+				_, xLive := model[x]
+				switch {
+				case xLive && err != nil:
+					fail("update:refused:"+tag(), err.Error())
+					return
+				case !xLive && err == nil:
+					fail("update:absent-accepted:"+tag(), fmt.Sprintf("update of absent name %q succeeded", x))
+					return
+				case xLive:
+					model[x] = nextID
+				}
+				if !checkState() {
+					return
+				}
+				continue
+			}
+		}
 		_, live := model[name]
 		w := []int{5, 2, 2, 3, 1}
 		if target > 0 && len(model) < capacity {
